@@ -1,0 +1,62 @@
+/*
+ * Verification hooks. Compiled only with `--cfg kolibrie_verif`; the normal
+ * build does not contain this module or any of its call sites.
+ */
+
+//! Trace recording and schedule perturbation for model-based verification.
+//!
+//! `event` appends one JSON line to a process-wide log while the caller still
+//! holds the lock that protects the state the event describes; the position in
+//! the log is the global sequence number. `yield_point` perturbs the thread
+//! schedule deterministically from a seed so that a harness can explore
+//! different interleavings of the RSP worker and coordinator threads.
+
+use std::sync::atomic::{AtomicU64, Ordering};
+use std::sync::Mutex;
+use std::time::Duration;
+
+static LOG: Mutex<Vec<String>> = Mutex::new(Vec::new());
+static SEED: AtomicU64 = AtomicU64::new(0);
+static COUNTER: AtomicU64 = AtomicU64::new(0);
+
+/// Seed 0 disables schedule perturbation.
+pub fn set_seed(seed: u64) {
+    SEED.store(seed, Ordering::SeqCst);
+    COUNTER.store(0, Ordering::SeqCst);
+}
+
+pub fn event(json: String) {
+    LOG.lock().unwrap_or_else(|e| e.into_inner()).push(json);
+}
+
+pub fn take_log() -> Vec<String> {
+    std::mem::take(&mut *LOG.lock().unwrap_or_else(|e| e.into_inner()))
+}
+
+fn mix(mut z: u64) -> u64 {
+    z = (z ^ (z >> 30)).wrapping_mul(0xBF58476D1CE4E5B9);
+    z = (z ^ (z >> 27)).wrapping_mul(0x94D049BB133111EB);
+    z ^ (z >> 31)
+}
+
+pub fn yield_point(tag: &str) {
+    let seed = SEED.load(Ordering::Relaxed);
+    if seed == 0 {
+        return;
+    }
+    let n = COUNTER.fetch_add(1, Ordering::Relaxed);
+    let mut h = mix(seed ^ n.wrapping_mul(0x9E3779B97F4A7C15));
+    for b in tag.bytes() {
+        h = mix(h ^ b as u64);
+    }
+    match h % 8 {
+        0..=2 => {}
+        3 | 4 => std::thread::yield_now(),
+        5 | 6 => std::thread::sleep(Duration::from_micros(20 + (h >> 8) % 200)),
+        _ => std::thread::sleep(Duration::from_micros(500 + (h >> 8) % 1500)),
+    }
+}
+
+pub fn json_string(s: &str) -> String {
+    serde_json::to_string(s).unwrap_or_else(|_| "\"\"".to_string())
+}
